@@ -17,6 +17,7 @@ structure ConnOk (gr bi snt res sr : Bool) (cn : Conn) : Prop where
   open_watched : cn.accepted = true → cn.closed = false → gr = true → cn.watcher = true
   sawSig_sent : cn.sawSig = true → snt = true
   graceful_src : cn.graceful = true → cn.sawSig = true ∨ cn.ageFired = true
+  sawSig_graceful : cn.sawSig = true → cn.graceful = true
   final_imp : cn.final = true → cn.graceful = true ∧ cn.hs = true
   closed_acc : cn.closed = true → cn.accepted = true
   hs_acc : cn.hs = true → cn.accepted = true
@@ -390,12 +391,14 @@ theorem good_step {s s' : State} {l : Label} (hg : Good s) (h : step s l = some 
     exact { hk with
       sawSig_sent := fun _ => hgd.1.2
       graceful_src := fun _ => Or.inl rfl
+      sawSig_graceful := fun _ => rfl
       final_imp := fun hf => ⟨rfl, (hk.final_imp hf).2⟩ }
   | connAge c =>
     refine good_updConn hg h ?_
     intro cn _ hgd hk
     exact { hk with
       graceful_src := fun _ => Or.inr rfl
+      sawSig_graceful := fun _ => rfl
       final_imp := fun hf => ⟨rfl, (hk.final_imp hf).2⟩ }
   | connBreak c =>
     refine good_updConn hg h ?_
